@@ -35,6 +35,7 @@ RULE = ("server side: a hostile raw peer sends grammar-aware mutations of valid 
 RULE += ("  " + 'Also (round 6): the parser calls of one case run in a child process under RLIMIT_CPU (30 CPU seconds; a normal case needs < 1): a call that never returns is a violation naming the function and its input, not a time-out of the harness.  Blank and white-space-only lines right before the end of the stream.')
 RULE += ("  " + 'Also (round 7): hostile bytes that are already there when the server accepts the connection; MLSx seed lines without a type fact; when only the listing lines are out of the ordinary, list() raises ValueError and nothing else.')
 RULE += ("  " + 'Also (round 8): streams ending inside a multi-byte character, then other sessions; paths of tens of thousands of components; the CPU time of one loop iteration of the server stays below 3 s (thread CPU time).')
+RULE += ("  " + 'Also (round 10): a listing line that is no entry together with a transfer that ends 426 / 451 / 550 or whose completion reply never comes: the documented ValueError; a passive-mode answer naming a port where connects are never answered, client with connection_timeout: the call ends by that time-out (simnet blackhole_ports).')
 ASSUMPTIONS = ["the hostile peer's script is finite and ends with EOF (a peer that stays silent for ever is C16's subject)",
                "time budget per parser call 5 s (a 64 KiB PASV payload needs ~2 s because of a quadratic regular expression; "
                "bounded by the stream limit, so not a hang)"]
